@@ -206,7 +206,9 @@ func randomConfig(r *rand.Rand, old string) proj.Config {
 	// the configured path need not be clean: the directory and the import path are
 	if r.Intn(4) == 0 {
 		segs := strings.Split(c.PkgPath, "/")
-		switch r.Intn(4) {
+		switch r.Intn(5) {
+		case 4: // ends in a dot segment (os.RemoveAll refuses such a path as it stands)
+			c.PkgPathRaw = c.PkgPath + "/."
 		case 0:
 			c.PkgPathRaw = "./" + c.PkgPath
 		case 1:
